@@ -1575,6 +1575,385 @@ def special_cross(ctx, rng, pairs):
                     ctx.count("cross:tms-address")
 
 
+# ------------------------------------------------------------------------------------------------
+# Round 4 — a value that, as raw octets, parses as ANOTHER valid structure of the protocol or as text in ANOTHER encoding
+#
+# The fields are opaque to the format (the model proves it); code that is "lenient" — accepts an un-flagged optional header when what
+# follows happens to read as a complete message, transcodes a value that looks like another encoding, unwraps a value that looks like a
+# nested length-value — is right on every value that does NOT have that look.  The look is a conjunction over the value's first octets,
+# its exact length (a length octet that equals a header octet: 2^k) and the neighbouring fields completing the alternative reading up to
+# the end of the message or the trailer.  The generators below are constructive again:
+#   alt:lv      every way the octets after the first header of an ARS registration ALSO read as `skip` octets (un-flagged / ignored
+#               headers) followed by exactly m length-value items up to the end: a small solver walks the item layout (length octets
+#               and second headers are fixed cells, value octets free cells) and forces the free cells the alternative reading uses as
+#               lengths; for the plain nesting (value = its own length-value form) every length 1..255, otherwise a grid of lengths that
+#               holds the header-valued ones (0x20, 0x40, 0x80 …); the same for the TMS address and text
+#   alt:first   every octet 0x00..0x7F (every header / second-header / length octet of both protocols) as the FIRST octet of every
+#               field x the lengths 2^k, 2^k +- 1 and "first octet + 1" (the nesting), fields before / behind it empty or not
+#   alt:enc     words (ASCII, Latin-1, BMP, non-BMP; 1..16 characters) in every OTHER encoding (UTF-16 / UTF-32 LE / BE with and without
+#               byte-order mark, UTF-7, Latin-1, and every codec name found as a string literal in the CURRENT source of the two
+#               modules) as the octets of a UTF-8 identifier, UTF-8 / UTF-16-BE / … as the octets of a UCS-2 text or an address
+#   alt:format  values in a recognisable textual format a helpful parser might decode (hex, base64, percent-encoding, decimal, dotted
+#               quad, MAC, UUID, JSON, quoted, NUL-terminated / padded …)
+#   alt:pdu     a whole serialised message (or its body) of either protocol as the value of a field
+#   alt:literal every string / bytes / small-int literal of the CURRENT source as token / length (harvested on every run)
+# ------------------------------------------------------------------------------------------------
+ALT_GRID = (0, 1, 2, 3, 5, 31, 32, 33, 63, 64, 65, 127, 128, 129, 255)
+ALT_WORDS = ["4711", "2001", "abc", "Op3rator", "radio-0001", "x", "ab", "A" * 16, "Z\xfcrich", "\xe9t\xe9", "日本語", "€42", "\U0001f600ok", "caf\xe9 7",
+             "N" * 32, "0123456789abcdef" * 4, "unit-" * 20, "7" * 127]
+ALT_HEADERISH = (0x20, 0x40, 0x80, 0xA0, 0xC0)  # lengths whose octet is a valid registration header (event x UTF-8, top bit ignored)
+ALT_CODECS = ["utf-16-le", "utf-16-be", "utf-16", "utf-32-le", "utf-32-be", "utf-32", "utf-7", "latin-1", "utf-8-sig", "utf-8", "cp1252", "ascii"]
+ALT_FORMATS = {
+    "hex": "34373131", "hex-upper": "DEADBEEF", "0x": "0x4711", "base64": "NDcxMQ==", "base64-nopad": "NDcxMQ", "pct": "%34%37%31%31", "pct-nul": "47%0011",
+    "decimal": "0004711", "dotted-quad": "10.0.0.1", "dotted-quad-port": "10.0.0.1:4005", "mac": "00:1a:2b:3c:4d:5e", "uuid": "123e4567-e89b-12d3-a456-426614174000",
+    "json-str": "\"4711\"", "json-obj": "{\"id\":4711}", "xml": "<id>4711</id>", "quoted": "'4711'", "nul-terminated": "4711\x00", "nul-padded": "4711\x00\x00\x00\x00",
+    "space-padded": "4711    ", "ff-padded": "4711\xff\xff", "c-escape": "47\\x3111", "u-escape": "\\u0034711", "bcd-look": "\x47\x11", "len-prefixed-ascii": "44711",
+    "e164": "+4207771234", "sip": "sip:4711@10.0.0.1", "email": "op@example.org", "domain\\user": "DMR\\op", "bool": "true", "float": "47.11", "sci": "4.711e3",
+}
+
+
+def harvest_literals():
+    """string / bytes / int literals of the CURRENT source of the two modules (a changed tree brings its new constants with it)"""
+    import ast
+    import codecs
+
+    out = {"codecs": [], "strs": [], "bytes": [], "ints": []}
+    for mod in (T(), A()):
+        try:
+            tree = ast.parse(open(mod.__file__, encoding="utf-8").read())
+        except (OSError, SyntaxError):
+            continue
+        docs = set()
+        for node in ast.walk(tree):
+            if isinstance(node, (ast.FunctionDef, ast.ClassDef, ast.Module)) and node.body and isinstance(node.body[0], ast.Expr) and isinstance(getattr(node.body[0], "value", None), ast.Constant):
+                docs.add(id(node.body[0].value))
+        for node in ast.walk(tree):
+            if not isinstance(node, ast.Constant) or id(node) in docs:
+                continue
+            v = node.value
+            if isinstance(v, bool):
+                continue
+            if isinstance(v, str) and 0 < len(v) <= 24:
+                try:
+                    name = codecs.lookup(v).name
+                    if name not in out["codecs"]:
+                        out["codecs"].append(name)
+                    continue
+                except (LookupError, TypeError, ValueError):
+                    pass
+                if v not in out["strs"] and not v.isidentifier():
+                    out["strs"].append(v)
+            elif isinstance(v, bytes) and 0 < len(v) <= 16 and v not in out["bytes"]:
+                out["bytes"].append(v)
+            elif isinstance(v, int) and 0 <= v <= 256 and v not in out["ints"]:
+                out["ints"].append(v)
+    return out
+
+
+def ars_flags(i):
+    """the i-th combination of the flags a placement leaves alone (acknowledged, priority, control, trailer, constructor form)"""
+    return {"ack": i & 1, "prio": (i >> 1) & 1, "ctl": (i >> 2) & 1, "csbk": (i >> 3) & 1, "ctor": ("member", "int", "bytes")[i % 3]}
+
+
+def ars_alt_fields(ty, more, event, vals, i, tag):
+    f = {"proto": "ars", "type": ty, "more": more, "rrh": [event, 0] if more or (i >> 4) & 1 else None, "rsh": None, "special": tag}
+    f.update(ars_flags(i))
+    for k in ("dev", "user", "pw"):
+        v = vals.get(k, b"")
+        f[k] = v.hex() if v or k != "user" or i & 1 else None  # None and "" are the same empty field
+    return f
+
+
+def _ascii_fill(k, n):
+    return _cyc(ARS_BODY[k].encode(), n)
+
+
+def alt_lv_solutions(fixed_head, lens, skip, m, cap=3):
+    """the octets after the first header are: fixed_head (second-header octets), then for every field its length octet and its value.
+    Every way (at most `cap`) to force value octets so that the same octets ALSO read as `skip` octets + exactly m length-value items
+    up to the end.  Returns [{(field index, offset): octet}]"""
+    cells = [("fix", b) for b in fixed_head]
+    ends = set()
+    for fi, n in enumerate(lens):
+        cells.append(("fix", n))
+        cells += [("free", fi, o) for o in range(n)]
+        ends.add(len(cells))
+    total = len(cells)
+    out = []
+
+    def walk(pos, i, forced):
+        if len(out) >= cap:
+            return
+        if i == m:
+            if pos == total:
+                out.append(dict(forced))
+            return
+        if pos >= total:
+            return
+        c = cells[pos]
+        if c[0] == "fix":
+            walk(pos + 1 + c[1], i + 1, forced)
+        elif (c[1], c[2]) in forced:
+            walk(pos + 1 + forced[(c[1], c[2])], i + 1, forced)
+        else:
+            for e in sorted(ends | {pos + 1, total}):
+                ln = e - pos - 1
+                if 0 <= ln < 0x80:
+                    forced[(c[1], c[2])] = ln
+                    walk(e, i + 1, forced)
+                    del forced[(c[1], c[2])]
+
+    if skip <= total:
+        # free cells among the skipped octets read as (un-flagged) second headers: give them a header's value
+        pre = {(c[1], c[2]): (0x20, 0x40, 0x00)[(j + total) % 3] for j, c in enumerate(cells[:skip]) if c[0] == "free"}
+        walk(skip, 0, pre)
+    return out  # an empty solution forces nothing: every message of these lengths reads both ways
+
+
+def nested_value(n, lead):
+    """octets of a UTF-8 value of n octets whose FIRST octet is `lead` (None: no well-formed value starts with it)"""
+    if n < 1:
+        return None
+    if lead < 0x80:
+        return bytes([lead]) + _cyc(b"radio-", n - 1)
+    s = _utf8_suffix(bytes([lead]))
+    if s is None or 1 + len(s) > n:
+        return None
+    return bytes([lead]) + s + _cyc(b"radio-", n - 1 - len(s))
+
+
+def special_alternative(ctx, rng, pairs):
+    te, td, ae, ad, misc = pairs
+    lit = harvest_literals()
+    ctx.count("alt:literal:codecs-in-source", len(lit["codecs"]))
+    rot = 0
+    # ---- alt:lv (1) the plain nesting: a value that is its own length-value form (first octet = length of the rest), every length;
+    #      and first octet = distance to the end of the NEXT fields (the alternative item swallows them)
+    for ty in ARS_REG:
+        for more in (0, 1):
+            for ki, k in enumerate(("dev", "user", "pw")):
+                for others in ("empty", "plain"):
+                    for n in range(1, 256):
+                        rest = {x: (_ascii_fill(x, len(ARS_BODY[x])) if others == "plain" else b"") for x in ("dev", "user", "pw") if x != k}
+                        behind = [x for x in ("dev", "user", "pw")[ki + 1:]]
+                        reach = [n - 1]
+                        acc = n - 1
+                        for x in behind:
+                            acc += 1 + len(rest[x])
+                            reach.append(acc)
+                        for ri, lead in enumerate(dict.fromkeys(reach)):
+                            if lead > 0xFF:
+                                continue
+                            v = nested_value(n, lead)
+                            if v is None:
+                                ctx.count("alt-unreachable:ars:nested-first-octet-not-utf8")
+                                continue
+                            rot += 1
+                            # a length octet that is itself a valid header: under every combination of the other flags
+                            for i in (range(rot, rot + 16) if n in ALT_HEADERISH and ri == 0 else (rot,)):
+                                f = ars_alt_fields(ty, more, i % 3, dict(rest, **{k: v}), i, f"alt:lv:nested:{k}:n{n}:reach{ri}")
+                                if not more:
+                                    f["rrh"] = None if i & 16 == 0 else f["rrh"]
+                                ars_case(ctx, f, ae, ad, "alt")
+                                ctx.count(f"alt:lv:ars-nested:{k}:{'exact' if ri == 0 else 'through-next-fields'}")
+    # ---- alt:lv (2) the solver: skip octets + m items, on the grid of lengths (header-valued lengths included)
+    grid = sorted(set(ALT_GRID) | {v for v in lit["ints"] if v <= 255})
+    small = (0, 1, 2, 5, 32, 64)
+    budget = ctx.budget(4000, 60000)
+    plans = []
+    for more in (0, 1):
+        for event in ((0, 1, 2) if more else (0,)):
+            head = [event << 5] if more else []
+            for nd in grid:
+                for nu in (grid if nd in small else small):
+                    for np_ in (small if not (nd in small and nu in small) else grid):
+                        for skip in ((1, 2) if not more else (0, 2)):
+                            for m in (1, 2, 3, 4, 5):
+                                plans.append((more, event, head, (nd, nu, np_), skip, m))
+    # every plan over the small lengths (they hold the header-valued 0x20 / 0x40) on every run, the others as far as the budget goes
+    first = [p for p in plans if all(n in small for n in p[3])]
+    others = [p for p in plans if not all(n in small for n in p[3])]
+    rng.shuffle(others)
+    done = 0
+    for pi, (more, event, head, lens, skip, m) in enumerate(first + others):
+        in_first = pi < len(first)
+        if not in_first and done >= budget:
+            ctx.count("alt:lv:solver-plans-beyond-budget")
+            continue
+        sols = alt_lv_solutions(head, lens, skip, m, cap=2)
+        if not in_first:
+            sols = [x for x in sols if x]  # beyond the small lengths only the constructed ones (the others are what the random stream is)
+        for si, sol in enumerate(sols):
+            vals = {}
+            for fi, k in enumerate(("dev", "user", "pw")):
+                v = bytearray(_ascii_fill(k, lens[fi]))
+                for (gi, o), b in sol.items():
+                    if gi == fi:
+                        v[o] = b
+                vals[k] = bytes(v)
+            # reference check of the construction: the alternative reading consumes the octets exactly
+            w = bytes(head) + b"".join(bytes([len(vals[k])]) + vals[k] for k in ("dev", "user", "pw"))
+            pos = skip
+            for _ in range(m):
+                pos += 1 + w[pos] if pos < len(w) else 10**6
+            if pos != len(w):
+                ctx.count("alt:lv:solver-misplaced")
+                continue
+            for ty in (ARS_REG if (32 in lens or 64 in lens) or si == 0 else (ARS_REG[rot & 1],)):
+                rot += 1
+                f = ars_alt_fields(ty, more, event, vals, rot, f"alt:lv:skip{skip}:items{m}:{lens[0]}-{lens[1]}-{lens[2]}")
+                ars_case(ctx, f, ae, ad, "alt")
+                done += 0 if in_first else 1
+            ctx.count(f"alt:lv:ars-solver:more{more}:skip{skip}:items{m}")
+    # ---- alt:first  every 7-bit octet as the first octet of every field x lengths 2^k (+-1), neighbours empty / plain
+    lengths = sorted({1, 2, 3, 4, 5, 7, 8, 9, 15, 16, 17, 31, 32, 33, 63, 64, 65, 127, 128, 129, 254, 255})
+    for b0 in range(0x80):
+        for n in lengths:
+            v = nested_value(n, b0)
+            for ki, k in enumerate(("dev", "user", "pw")):
+                rot += 1
+                others = ("empty", "plain")[(rot >> 1) & 1] if n not in (32, 64, 128) else None
+                for oth in ((others,) if others else ("empty", "plain")):
+                    rest = {x: (_ascii_fill(x, len(ARS_BODY[x])) if oth == "plain" else b"") for x in ("dev", "user", "pw") if x != k}
+                    for more in (0, 1):
+                        rot += 1
+                        f = ars_alt_fields(ARS_REG[(rot >> 2) & 1] if n not in (32, 64) else ARS_REG[rot & 1], more, rot % 3, dict(rest, **{k: v}), rot // 2, f"alt:first:{k}:{b0:02x}:n{n}")
+                        ars_case(ctx, f, ae, ad, "alt")
+                        ctx.count("alt:first:ars")
+    for n in (32, 64):  # the header-valued lengths once more under BOTH types and every flag combination
+        for b0 in range(0x80):
+            for ty in ARS_REG:
+                for i in range(16):
+                    f = ars_alt_fields(ty, 0, 0, {"dev": nested_value(n, b0)}, i, f"alt:first:dev:{b0:02x}:n{n}:flags{i}")
+                    f["rrh"] = None
+                    ars_case(ctx, f, ae, ad, "alt")
+                    ctx.count("alt:first:ars-header-valued-length")
+    # TMS: address = its own length-value form / reaching to the end of the message; text likewise; every first octet x 2^k
+    tbody = u16(TMS_BODY)
+    for n in range(1, 256):
+        for ty, second in ((0, 0), (0, 1), (1, 0), (1, 1), (2, 1)):
+            opt = {0: [b"", b"\x02"], 1: [b"", b"\x05"], 2: [None, b"\x95\x44"]}[ty][second]
+            tail = len(opt) + (len(tbody) if ty == 2 else 0)
+            for ri, lead in enumerate(dict.fromkeys([n - 1, n - 1 + tail])):
+                if lead > 0xFF:
+                    continue
+                rot += 1
+                addr = bytes([lead]) + _cyc(ADDR_BODY, n - 1)
+                f = {"proto": "tms", "type": ty, "more": rot & 1, "ack": (rot >> 1) & 1, "res": (rot >> 2) & 1, "addr": addr.hex(), "cap": 2 if (ty == 0 and second) else None,
+                     "seq": (5 if ty == 1 else 85) if (ty and second) else None, "enc": 1 if ty == 2 else None, "msg": tbody.hex() if ty == 2 else None,
+                     "text": TMS_BODY if ty == 2 else None, "ctor": ("member", "int")[rot % 2], "special": f"alt:lv:nested:addr:n{n}:reach{ri}"}
+                tms_case(ctx, f, te, td, "alt")
+                ctx.count("alt:lv:tms-address-nested")
+    for n in range(2, 258, 2):
+        for lead in dict.fromkeys([n - 1, n - 2, (n // 2) - 1, n // 2]):
+            if not 0 <= lead <= 0xFF:
+                continue
+            rot += 1
+            msg = bytes([lead]) + _cyc(tbody[1:] if len(tbody) > 1 else b"\x00", n - 1)
+            car = dict(TMS_CARRIERS[rot % 6], seq=SEQ_EDGES[rot % len(SEQ_EDGES)])
+            tms_case(ctx, tms_text_fields(car, (None, 0, 1)[rot % 3], msg, None, f"alt:lv:nested:msg:n{n}:{lead}"), te, td, "alt")
+            ctx.count("alt:lv:tms-text-nested")
+    for b0 in range(256):
+        for n in (1, 2, 4, 8, 16, 32, 64, 128, 255):
+            rot += 1
+            addr = bytes([b0]) + _cyc(ADDR_BODY, n - 1)
+            ty = rot % 3
+            f = {"proto": "tms", "type": ty, "more": rot & 1, "ack": (rot >> 1) & 1, "res": 0, "addr": addr.hex(), "cap": 1 if ty == 0 else None, "seq": 33 if ty else None,
+                 "enc": 1 if ty == 2 else None, "msg": tbody.hex() if ty == 2 else None, "text": TMS_BODY if ty == 2 else None, "ctor": "member", "special": f"alt:first:addr:{b0:02x}:n{n}"}
+            tms_case(ctx, f, te, td, "alt")
+            if n > 1:
+                msg = bytes([b0]) + _cyc(tbody[1:], n - 1) + (b"\x00" if n & 1 else b"")
+                tms_case(ctx, tms_text_fields(TMS_CARRIERS[rot % 6], (None, 1)[rot & 1], msg, None, f"alt:first:msg:{b0:02x}:n{n}"), te, td, "alt")
+            ctx.count("alt:first:tms")
+    # ---- alt:enc  words in every other encoding as the octets of a field
+    codec_names = list(dict.fromkeys(ALT_CODECS + lit["codecs"]))
+    for wi, word in enumerate(ALT_WORDS):
+        for cname in codec_names:
+            try:
+                octs = word.encode(cname)
+            except (UnicodeError, LookupError):
+                ctx.count("alt-unreachable:enc:word-not-encodable")
+                continue
+            forms = {"raw": octs}
+            if not _valid8(octs):
+                forms = {"as-latin1-chars": octs.decode("latin-1").encode("utf-8")}  # every octet as a character (mojibake)
+            elif cname not in ("utf-8", "ascii"):
+                forms["as-latin1-chars"] = octs.decode("latin-1").encode("utf-8")
+            for fname, v in forms.items():
+                if v == word.encode("utf-8") and cname not in ("utf-8", "ascii"):
+                    continue  # the same octets as the field's own encoding
+                for where in ("alone", "start", "end"):
+                    for field in ("dev", "user", "pw", "all"):
+                        rot += 1
+                        ks = ("dev", "user", "pw") if field == "all" else (field,)
+                        vals = {k: place(v, b"" if where == "alone" else ARS_BODY[k].encode(), where) for k in ks}
+                        if any(len(x) > 255 for x in vals.values()):
+                            continue
+                        for ci in ((rot % 6, (rot + 3) % 6) if where == "alone" else (rot % 6,)):
+                            ars_case(ctx, ars_reg_fields(ARS_CARRIERS[ci], vals, f"alt:enc:{cname}:{fname}:{field}:{where}:w{wi}"), ae, ad, "alt")
+                            ctx.count(f"alt:enc:ars:{cname}")
+            # the octet-typed TMS fields take the octets as they are (even length for a UCS-2 text)
+            if cname not in ("utf-16-le",):
+                for where in ("alone", "start", "end"):
+                    rot += 1
+                    msg = place(octs + (b"\x00" if len(octs) & 1 else b""), b"" if where == "alone" else tbody, where)
+                    for enc in (None, 1):
+                        tms_case(ctx, tms_text_fields(TMS_CARRIERS[rot % 6], enc, msg, None, f"alt:enc:{cname}:msg:{where}:w{wi}"), te, td, "alt")
+                    addr = place(octs, b"" if where == "alone" else ADDR_BODY, where)[:255]
+                    ty = rot % 3
+                    f = {"proto": "tms", "type": ty, "more": 0, "ack": rot & 1, "res": 0, "addr": addr.hex(), "cap": 0 if ty == 0 else None, "seq": 31 if ty else None,
+                         "enc": 1 if ty == 2 else None, "msg": tbody.hex() if ty == 2 else None, "text": TMS_BODY if ty == 2 else None, "ctor": "member",
+                         "special": f"alt:enc:{cname}:addr:{where}:w{wi}"}
+                    tms_case(ctx, f, te, td, "alt")
+                    ctx.count(f"alt:enc:tms:{cname}")
+    # ---- alt:format / alt:literal  whole values in a recognisable format; literals of the current source
+    values = {"format:" + k: v for k, v in ALT_FORMATS.items()}
+    values.update({f"literal:str{i}": s for i, s in enumerate(lit["strs"])})
+    values.update({f"literal:bytes{i}": b.decode("latin-1") for i, b in enumerate(lit["bytes"])})
+    for name, s in values.items():
+        v8, v16 = s.encode("utf-8"), u16(s)
+        for where in ("alone", "start", "end"):
+            for field in ("dev", "user", "pw", "all"):
+                rot += 1
+                ks = ("dev", "user", "pw") if field == "all" else (field,)
+                vals = {k: place(v8, b"" if where == "alone" else ARS_BODY[k].encode(), where) for k in ks}
+                ars_case(ctx, ars_reg_fields(ARS_CARRIERS[rot % 6], vals, f"alt:{name}:{field}:{where}"), ae, ad, "alt")
+                ctx.count("alt:" + name.split(":")[0] + ":ars")
+            rot += 1
+            msg = place(v16, b"" if where == "alone" else tbody, where)
+            tms_case(ctx, tms_text_fields(TMS_CARRIERS[rot % 6], (None, 1)[rot & 1], msg, None, f"alt:{name}:msg:{where}"), te, td, "alt")
+            raw = place(v8 + (b"\x00" if len(v8) & 1 else b""), b"" if where == "alone" else tbody, where)
+            tms_case(ctx, tms_text_fields(TMS_CARRIERS[(rot + 1) % 6], (None, 1)[rot & 1], raw, None, f"alt:{name}:msg-octets:{where}"), te, td, "alt")
+            ctx.count("alt:" + name.split(":")[0] + ":tms")
+    # ---- alt:pdu  a whole serialised message / its body as the value of a field (reference encodings written here)
+    inner = []
+    for ty_code, d, u, w in ((0x0, b"11", b"", b""), (0x5, b"2001", b"op", b"pw"), (0x0, b"", b"", b""), (0x40, b"7", b"", b"")):
+        body = bytes([ty_code]) + b"".join(bytes([len(x)]) + x for x in (d, u, w))
+        inner += [len(body).to_bytes(2, "big") + body, body, body[1:], len(body).to_bytes(2, "big") + body + b"\x10"]
+    inner += [bytes.fromhex(h) for h in ("000174", "000131", "00013f", "000204", "0002 1f 00".replace(" ", ""), "0003500001")]
+    inner += [b"\x00\x04" + b"\x00\x00\x05\x00", b"\x05" + u16("ok"), b"\x00\x0a\x20\x00\x05" + u16("ok!")[:6]]
+    for ii, blob in enumerate(inner):
+        for where in ("alone", "start", "end"):
+            if _valid8(blob):
+                for field in ("dev", "user", "pw", "all"):
+                    rot += 1
+                    ks = ("dev", "user", "pw") if field == "all" else (field,)
+                    vals = {k: place(blob, b"" if where == "alone" else ARS_BODY[k].encode(), where) for k in ks}
+                    for ci in (rot % 6, (rot + 3) % 6):
+                        ars_case(ctx, ars_reg_fields(ARS_CARRIERS[ci], vals, f"alt:pdu:{ii}:{field}:{where}"), ae, ad, "alt")
+                        ctx.count("alt:pdu:ars")
+            rot += 1
+            msg = place(blob + (b"\x00" if len(blob) & 1 else b""), b"" if where == "alone" else tbody, where)
+            for enc in (None, 1):
+                tms_case(ctx, tms_text_fields(TMS_CARRIERS[rot % 6], enc, msg, None, f"alt:pdu:{ii}:msg:{where}"), te, td, "alt")
+            for ty in range(3):
+                f = {"proto": "tms", "type": ty, "more": rot & 1, "ack": 0, "res": 0, "addr": place(blob, b"" if where == "alone" else ADDR_BODY, where).hex(), "cap": 3 if ty == 0 else None,
+                     "seq": 64 if ty else None, "enc": 1 if ty == 2 else None, "msg": tbody.hex() if ty == 2 else None, "text": TMS_BODY if ty == 2 else None, "ctor": "member",
+                     "special": f"alt:pdu:{ii}:addr:{where}"}
+                tms_case(ctx, f, te, td, "alt")
+            ctx.count("alt:pdu:tms")
+
+
 class _Bytes(bytes):
     """a bytes subclass (what another code path of an application may hand over)"""
 
@@ -1808,6 +2187,11 @@ ARS_CORPUS = [
     {"proto": "ars", "type": 0, "more": 0, "ack": 0, "prio": 0, "ctl": 0, "csbk": 0, "rrh": None, "rsh": None, "dev": "10", "user": None, "pw": None},
     {"proto": "ars", "type": 1, "more": 1, "ack": 1, "prio": 1, "ctl": 1, "csbk": 1, "rrh": None, "rsh": None, "dev": None, "user": None, "pw": None},
     {"proto": "ars", "type": 5, "more": 0, "ack": 1, "prio": 1, "ctl": 1, "csbk": 0, "rrh": None, "rsh": None, "dev": None, "user": None, "pw": None},
+    # round 4: an identifier that is its own length-value form and whose length octet equals a registration header (20 1F …, 40 3F …),
+    # no has-more flag, nothing behind it; an identifier whose octets are UTF-16-LE text of ASCII characters
+    {"proto": "ars", "type": 0, "more": 0, "ack": 0, "prio": 0, "ctl": 0, "csbk": 1, "rrh": None, "rsh": None, "dev": "1f" + "72" * 31, "user": "", "pw": ""},
+    {"proto": "ars", "type": 0, "more": 0, "ack": 0, "prio": 0, "ctl": 0, "csbk": 0, "rrh": None, "rsh": None, "dev": "3f" + "72" * 63, "user": None, "pw": None},
+    {"proto": "ars", "type": 2, "more": 0, "ack": 0, "prio": 0, "ctl": 0, "csbk": 0, "rrh": None, "rsh": None, "dev": "", "user": "3400370031003100", "pw": ""},
 ]
 
 
@@ -2023,6 +2407,15 @@ def run(ctx):
         "the octet-typed TMS fields, str subclass and one shared object for the ARS identifiers. Ambient state: a fixed "
         "sample of 240 in-range messages under root logger DEBUG, failing sys.stdout, reseeded global random and in a child "
         "python -O. "
+        "Round 4 — values that, as raw octets, read as ANOTHER structure of the protocol or as text in another encoding: a solver walks the item layout of "
+        "an ARS registration (length octets / second headers fixed, value octets free) and builds every way the octets behind the first header ALSO read as "
+        "k skipped octets (un-flagged headers, given header values) + exactly m length-value items to the end (k 0..2, m 1..5; every plan over the lengths "
+        "0,1,2,5,32,64 on every run, a budgeted share of the grid up to 255 incl. every small int literal of the current source); the plain nesting (value = its own "
+        "length-value form, or reaching through the following fields to the end) for every field x every length 1..255 x type x has_more x neighbours empty / plain; "
+        "every octet 00..7F as first octet of every field x lengths 2^k, 2^k +- 1 (the header-valued 32 / 64 under both types x all 16 flag combinations); the same for the "
+        "TMS address and text; 14 words (ASCII, Latin-1, BMP, non-BMP) in 12 other codecs + every codec name found as a literal in the current source, as raw octets and "
+        "octet-per-character, alone / start / end of each field; ~30 recognisable textual formats (hex, base64, percent, dotted quad, JSON, NUL-padded …) and every "
+        "short string / bytes literal of the current source as values; whole serialised ARS / TMS messages and bodies as values. "
         "Every generated octet string goes through the oracle and through the model (as_bytes and "
         "from_bytes lines). A case is distinct by its full field tuple / byte string."
     )
@@ -2056,6 +2449,7 @@ def run(ctx):
     special_straddle(ctx, rng, (te, td, ae, ad, misc))
     special_tails(ctx, (te, td, ae, ad, misc))
     special_cross(ctx, rng, (te, td, ae, ad, misc))
+    special_alternative(ctx, rng, (te, td, ae, ad, misc))
     provenance_probe(ctx, rng)
     ambient_probe(ctx, rng)
     special_single_chars(ctx, rng, (te, td, ae, ad, misc))
